@@ -13,9 +13,9 @@ from simkit.chaosnet import FaultDriver, build_mesh
 from simkit.rng import seed_globals
 from simkit.world import InvalidScenario, Monitor, result, run_sim
 
-KLASSES = ("ml-live", "ml-live-jitter", "ml-single", "ml-single-faulty", "ml-multi-fifo", "ml-multi")
+KLASSES = ("ml-live", "ml-live-jitter", "ml-pingpong", "ml-single", "ml-single-faulty", "ml-multi-fifo", "ml-multi")
 LIVE = ("ml-live", "ml-live-jitter")
-FIFO = ("ml-live", "ml-single-faulty", "ml-multi-fifo")
+FIFO = ("ml-live", "ml-single-faulty", "ml-multi-fifo", "ml-pingpong")
 PFX = {"multi": "MultiPaxos", "flex": "FlexPaxos"}
 CLSNAME = {"multi": "MultiPaxosNode", "flex": "FlexiblePaxosNode"}
 
@@ -39,7 +39,7 @@ class RecordingStateMachine:
 
 def gen(rng, fam):
     r = rng.random()
-    klass = ("ml-live" if r < 0.10 else "ml-live-jitter" if r < 0.22 else "ml-single" if r < 0.37
+    klass = ("ml-live" if r < 0.08 else "ml-live-jitter" if r < 0.19 else "ml-pingpong" if r < 0.29 else "ml-single" if r < 0.40
              else "ml-single-faulty" if r < 0.50 else "ml-multi-fifo" if r < 0.75 else "ml-multi")
     n = rng.choice([3, 3, 4, 5, 5]) if klass != "ml-live-jitter" else rng.choice([3, 3, 3, 4, 5])
     scale = rng.choice([0.005, 0.01, 0.02])
@@ -69,7 +69,31 @@ def gen(rng, fam):
     starts.sort(key=lambda s: (s["t"], s["node"]))
     k = rng.randint(2, 12)
     submits = []
-    if klass in LIVE:
+    if klass == "ml-pingpong":
+        # leadership ping-pong on a fault-free FIFO network: a -> b -> (c ->) a ..., every hand-over a generated multiple
+        # of the heartbeat interval after the previous one, then a quiet tail in which the last starter is the
+        # established leader and gets the final command(s); judged: those are decided and applied at every node
+        order = [lead0]
+        for _ in range(rng.choice([2, 2, 3, 4])):
+            nxt = rng.choice([i for i in range(n) if i != order[-1]])
+            if len(order) >= 2 and rng.random() < 0.6:
+                nxt = rng.choice([i for i in order[:-1] if i != order[-1]] or [nxt])  # return of an earlier leader
+            order.append(nxt)
+        t = t0
+        starts = []
+        for i, nd in enumerate(order):
+            starts.append({"t": round(t, 5), "node": nd})
+            t += 4 * dmax + hb * rng.choice([0.3, 1.2, 1.2, 2.5])
+        last_start = starts[-1]["t"]
+        for i in range(rng.choice([0, 0, 1, 2])):   # a few early commands for whoever leads then (may hit recorded findings)
+            submits.append({"t": round(rng.uniform(t0 + 4 * dmax, last_start), 5), "mode": "leader", "node": 0, "cmd": f"e{i}"})
+        tt = last_start + 4 * dmax + 0.001 + rng.uniform(0, 0.5 * hb)
+        for i in range(rng.choice([1, 1, 2, 3])):
+            submits.append({"t": round(tt, 5), "mode": "leader", "node": 0, "cmd": f"t{i}", "tail": True})
+            tt += rng.uniform(0, 0.4 * hb)
+        submits.sort(key=lambda s: s["t"])
+        horizon = round(max(s["t"] for s in submits) + 2 * hb + 12 * dmax + 0.01, 5)
+    elif klass in LIVE:
         base = t0 + 4 * dmax + 0.001
         for i in range(k):
             # back-to-back bursts (several slots in flight at once) mixed with spread-out commands
@@ -97,7 +121,7 @@ def gen(rng, fam):
             "submits": submits, "horizon": horizon,
             # ml-live-jitter judges liveness only: reordering inside the delay bound is not a fault, and the recorded
             # Multi/Flexible safety findings that reordering triggers must not end the run before liveness is judged
-            "defer_fine": klass == "ml-live-jitter" or (klass != "ml-live" and rng.random() < 0.3)}
+            "defer_fine": klass in ("ml-live-jitter", "ml-pingpong") or (klass != "ml-live" and rng.random() < 0.3)}
 
 
 def _validate(sc):
@@ -132,7 +156,7 @@ def _validate(sc):
     k = sc["klass"]
     if k in ("ml-live", "ml-live-jitter", "ml-single", "ml-single-faulty") and len({s["node"] for s in sc["starts"]}) != 1:
         raise InvalidScenario("single-starter class")
-    if k in ("ml-live", "ml-live-jitter", "ml-single", "ml-multi-fifo") and sc.get("faults"):
+    if k in ("ml-live", "ml-live-jitter", "ml-pingpong", "ml-single", "ml-multi-fifo") and sc.get("faults"):
         raise InvalidScenario("fault-free class")
     if k in FIFO:
         pr = [sc["profile"]] + list((sc.get("per_link") or {}).values())
@@ -142,6 +166,16 @@ def _validate(sc):
         pr = [sc["profile"]] + list((sc.get("per_link") or {}).values())
         if any(p.get("straggler_p", 0) for p in pr) or not sc.get("defer_fine"):
             raise InvalidScenario("ml-live-jitter: bounded delays, liveness-only (deferred) mode")
+    if k == "ml-pingpong":
+        tail = [s for s in sc.get("submits", []) if s.get("tail")]
+        dmax = max_delay(sc["profile"], sc.get("per_link"))
+        last_start = max(s["t"] for s in sc["starts"])
+        if not sc.get("defer_fine") or not tail or any(s["mode"] != "leader" for s in tail):
+            raise InvalidScenario("ml-pingpong: liveness-only (deferred) mode with tail commands for the leader")
+        if min(s["t"] for s in tail) < last_start + 4 * dmax:
+            raise InvalidScenario("ml-pingpong: tail commands come after the last leader is established")
+        if sc["horizon"] < max(s["t"] for s in tail) + 2 * sc["hb"] + 12 * dmax:
+            raise InvalidScenario("liveness horizon too short")
     if k in LIVE:
         if any(s["mode"] != "leader" for s in sc.get("submits", [])) or not sc.get("submits") or len(sc["starts"]) != 1:
             raise InvalidScenario("liveness class: one start, commands go to the leader")
@@ -192,7 +226,9 @@ def run(sc):
                         "ml_leader_deposed_by_own_heartbeat", "ml_queued_at_non_leader", "ml_nack",
                         "ml_leader_uses_foreign_ballot", "ml_leader_kept_leading_after_own_tick",
                         "ml_command_after_first_tick_applied_everywhere", "ml_promise_reported_entries",
-                        "ml_live_two_slots_in_flight", "ml_live_acks_out_of_slot_order"], 0)
+                        "ml_live_two_slots_in_flight", "ml_live_acks_out_of_slot_order", "ml_leader_regained_after_own_tick_while_deposed",
+                        "ml_pingpong_tail_command_applied_everywhere"], 0)
+    deposed_tick = set()         # nodes whose own heartbeat tick fired while they were not leader
     in_flight_max = [0]
     acks_ooo = [False]
     last_ack_slot = {}
@@ -382,6 +418,7 @@ def run(sc):
             pr["ml_truncate"] = 1
         # --- leadership probes
         lead = x.is_leader
+        was_leader_before = was_leader[i]
         if lead != was_leader[i]:
             if lead:
                 if x.name not in leaders_ever:
@@ -393,6 +430,10 @@ def run(sc):
             elif et == P + "Heartbeat" and md.get("self_heartbeat"):
                 pr["ml_leader_deposed_by_own_heartbeat"] = 1
             was_leader[i] = lead
+        if (not lead) and et == P + "Heartbeat" and md.get("self_heartbeat"):
+            deposed_tick.add(x.name)
+        if lead and not was_leader_before and x.name in deposed_tick:
+            pr["ml_leader_regained_after_own_tick_while_deposed"] = 1
         if lead and et == P + "Heartbeat" and md.get("self_heartbeat"):
             pr["ml_leader_kept_leading_after_own_tick"] = 1
             ticked.add(x.name)
@@ -483,11 +524,14 @@ def run(sc):
         sig, msg = payload.sig, payload.msg
         if status == "exception":
             sig = f"C12/{sig}"
-    elif status == "ok" and klass in LIVE:
+    elif status == "ok" and (klass in LIVE or klass == "ml-pingpong"):
         dmax = max_delay(sc["profile"], sc.get("per_link"))
         tag = "/leader-deposed-by-own-heartbeat" if pr["ml_leader_deposed_by_own_heartbeat"] else ""
         bad = None
+        tail_cmds = {s["cmd"] for s in sc.get("submits", []) if s.get("tail")}
         for nd, fut, cmd, _ in futures:
+            if klass == "ml-pingpong" and cmd not in tail_cmds:
+                continue  # only commands given to the leader established in the quiet tail are judged
             lagging = [x.name for j, x in enumerate(nodes) if cmd not in sms[j].applied]
             if not any(cmd in d.values() for d in decided):
                 bad = ("never-decided", f"command {cmd!r} submitted to established leader {nd.name} was decided nowhere")
@@ -501,9 +545,11 @@ def run(sc):
             if J.first_fine:  # liveness-only class: name the recorded safety cause that preceded the liveness failure
                 tag += f"/after:{J.first_fine[0]}:{J.first_fine[1]}"
             sig = f"C12/liveness/{CLS}/{bad[0]}{tag}"
-            msg = (f"fault-free, {'FIFO links' if klass == 'ml-live' else 'bounded jitter (reordering)'}, delays <= {dmax:.4f}s, heartbeat {sc['hb']}s, horizon {sc['horizon']}s: {bad[1]}; "
+            msg = (f"fault-free, {'bounded jitter (reordering)' if klass == 'ml-live-jitter' else 'FIFO links'}, delays <= {dmax:.4f}s, heartbeat {sc['hb']}s, horizon {sc['horizon']}s: {bad[1]}; "
                    f"commit indexes {[x.log.commit_index for x in nodes]}, leaders now {[x.name for x in nodes if x.is_leader]}, "
                    f"commands skipped because no node was leader: {skipped['no_leader']}")
+    pr["ml_pingpong_tail_command_applied_everywhere"] = int(klass == "ml-pingpong" and any(
+        s.get("tail") and all(s["cmd"] in sm.applied for sm in sms) for s in sc.get("submits", [])))
     pr["ml_live_two_slots_in_flight"] = int(klass in LIVE and in_flight_max[0] >= 2)
     pr["ml_live_acks_out_of_slot_order"] = int(klass in LIVE and acks_ooo[0])
     pr["ml_command_after_first_tick_applied_everywhere"] = int(any(all(c in sm.applied for sm in sms) for c in late_cmds))
